@@ -59,14 +59,15 @@ def run(chk):
                     else:
                         ev.update(len_ok=False, dev=0, par_dev=0)
                     batch.add(ev, {'cls': name, 'dt': dt, 'N': N, 'nfft': nfft, 'c': c, 'kind': kind, 'seed': chk.seed})
-    # functional forms (defaults included: speriodogram detrends by default) and the live object after an NFFT change
+    # functional forms (detrending and frequency scaling on, spelled out: defaults are not part of the property) and the
+    # live object after an NFFT change
     import spectrum as sp
     from spectrum.eigenfre import eigen
     for N, nfft, c in confs[:3]:
         for dt in ('real', 'complex'):
             x = zoo.signal(rng, N, dt == 'complex', 'tones') + 0.7
             forms = {
-                'speriodogram()': lambda n: sp.speriodogram(x.copy(), NFFT=n),
+                'speriodogram()': lambda n: sp.speriodogram(x.copy(), NFFT=n, detrend=True, scale_by_freq=True, sampling=1.0, window='hamming'),
                 'speriodogram(detrend=False)': lambda n: sp.speriodogram(x.copy(), NFFT=n, detrend=False, scale_by_freq=False),
                 'CORRELOGRAMPSD()': lambda n: sp.CORRELOGRAMPSD(x.copy(), lag=10, NFFT=n),
                 'minvar()': lambda n: sp.minvar(x.copy(), 4, NFFT=n)[0],
